@@ -1,6 +1,7 @@
 """C02: the tree tensor network operator is exact and independent of the tree topology.
 
-  translator      tx/partition.py  (treebase.approximate_partition -> Gen/Partition.v), round trip on samples
+  translators     tx/partition.py (approximate_partition -> Gen/Partition.v, round trip on samples),
+                  tx/builders_tree.py (the four tree builders -> Gen/TreeBuilders.v), tx/rootcover.py (cover orientation -> Gen/RootCover.v)
   theorems        Props/C02.v
   correspondence  (a) builders: every list length, tree order, contract_label vector -- model tree == real tree,
                       and the exactly-once property on the real object
@@ -25,10 +26,12 @@ from fractions import Fraction
 import common
 sys.path.insert(0, os.path.join(common.VERIF, "tx"))
 import partition as txpart
+import builders_tree as txbuild
+import rootcover as txroot
 
 TOL = 1e-9
 COQ_HDR = ("From Coq Require Import ZArith List Arith.\nImport ListNotations.\n"
-           "From RV Require Import Base.CRing Gen.Partition Model.TreeTopo Model.Ttno.\n")
+           "From RV Require Import Base.CRing Gen.Partition Model.TreeTopo Gen.TreeBuilders Model.Ttno.\n")
 
 SPIN_SYMS = ["sigma_x", "sigma_z", "sigma_+", "sigma_-", "sigma_+ sigma_-", "sigma_z sigma_x"]
 SHO_SYMS = ["b", r"b^\dagger", "x", r"b^\dagger b", "x^2"]
@@ -301,6 +304,26 @@ def gen_history(rng, sid):
     return {"id": sid, "steps": steps}
 
 
+def gen_terms_conserving(rng, reals, nmax):
+    """every term moves exactly one electron (a^dagger_i a_j or a^dagger_i a_i) times charge-neutral spectators: a common total charge 0"""
+    els = [b for b in reals if b[0] == "el"]
+    others = [b for b in reals if b[0] != "el"]
+    terms = []
+    for _ in range(rng.randint(1, nmax)):
+        ops = []
+        if len(els) >= 2 and rng.random() < 0.7:
+            a, b = rng.sample(els, 2)
+            ops += [[r"a^\dagger", a[1]], ["a", b[1]]]
+        else:
+            a = rng.choice(els)
+            ops += [[r"a^\dagger", a[1]], ["a", a[1]]]
+        for spec in rng.sample(others, min(len(others), rng.randint(0, 2))):
+            for s_ in rng.choice({"spin": ["sigma_x", "sigma_z", "sigma_+ sigma_-"], "sho": ["x", r"b^\dagger b", "x^2"]}[spec[0]]).split(" "):
+                ops.append([s_, spec[1]])
+        terms.append({"ops": ops, "num": rng.choice([1, 1, 3, -1, 5]), "exp": rng.choice([-2, 0, 0, 1, 3])})
+    return terms
+
+
 def term_coeffs(terms):
     """the term list as a map  frozenset{(dof, symbol-string-on-that-dof)} -> Fraction"""
     out = {}
@@ -324,6 +347,7 @@ def run(ctx):
     rng = ctx.rng
     ctx.trusted += [
         "translator tx/partition.py (python ast -> Gallina over Z/lists, fail-closed; its prelude fixes the semantics of len, //, slices, range)",
+        "translator tx/builders_tree.py (BasisTree.linear/binary/general_mctdh/t3ns: skeleton unification with holes for every loop bound, index, slice bound, test and counter update; the functional reading of add_child/recursion is the template's) and tx/rootcover.py (orientation rule of the vertex cover)",
         "correspondence harness/c02.py + harness/impl/c02_impl.py, c02_builders.py: wrappers around _construct_symbolic_mpo_one_site, _decompose_graph, bipartite_vertex_cover; flat integer exchange format; sorting inside a formal sum / of table rows before comparison",
         "hand-written models Model/TreeTopo.v (builders) and Model/Ttno.v (construction loop) are tied by correspondence, not by translation",
         "modelled, not verified: _terms_to_table/_deduplicate_table (C01), the qr decomposition, symbolic_mo_to_numeric_mo_general and todense/opt_einsum (dense oracle only), nodes.index lookups, binary64 rounding, np.unique / scipy.sparse ordering (results compared up to order where the theorem is order-independent)",
@@ -350,15 +374,26 @@ def run(ctx):
         broken.append("translator tx/partition.py")
         detail["translator"] = repr(e)
         ctx.obligations.append({"name": "Gen/Partition.v (translator tx/partition.py)", "file": "Gen/Partition.v", "ok": False, "assumptions": None})
+    for mod, rel in ((txbuild, "Gen/TreeBuilders.v"), (txroot, "Gen/RootCover.v")):
+        try:
+            text2, info2 = mod.main(common.REPO)
+            ctx.regen(rel, text2)
+        except Exception as e:
+            tx_ok = False
+            broken.append("translator tx/%s.py" % mod.__name__)
+            detail.setdefault("translator", "")
+            detail["translator"] += " | %s: %r" % (mod.__name__, e)
+            ctx.obligations.append({"name": "%s (translator tx/%s.py)" % (rel, mod.__name__), "file": rel, "ok": False, "assumptions": None})
     # ---- 2. build + theorems
-    ok_build, log = ctx.coq_make(["Proofs/TreeTopoProofs.vo", "Proofs/TtnoProofs.vo"])
+    ok_build, log = ctx.coq_make(["Proofs/TreeTopoProofs.vo", "Proofs/TreeBuildersProofs.vo", "Proofs/TtnoProofs.vo"])
     ok_props = False
     if ok_build:
         ok_props, log = ctx.props("Props/C02.v")
     else:
         ctx.obligations.append({"name": "C02 (build of Gen/Partition.v, Model/TreeTopo.v, Model/Ttno.v and their proofs)", "file": "Proofs/TtnoProofs.v", "ok": False, "assumptions": None})
     if tx_ok:
-        ctx.obligations.append({"name": "Gen/Partition.v regenerated from the current source and accepted by the proofs", "file": "Gen/Partition.v", "ok": bool(ok_build), "assumptions": []})
+        for rel in ("Gen/Partition.v", "Gen/TreeBuilders.v", "Gen/RootCover.v"):
+            ctx.obligations.append({"name": rel + " regenerated from the current source and accepted by the proofs", "file": rel, "ok": bool(ok_build), "assumptions": []})
     if not (ok_build and ok_props):
         broken.append("theorem(s): " + ", ".join(o["name"] for o in ctx.obligations if not o["ok"]))
         detail["coq_log_tail"] = log[-2500:]
@@ -385,13 +420,11 @@ def run(ctx):
         items = []
         for t in bres["trees"]:
             k = t["key"]
-            if k[0] in ("linear", "binary"):
-                expr = "enc_obtree (%s (seq 0 %d))" % (k[0], k[1])
-            elif k[0] == "t3ns":
-                expr = "enc_btree (t3ns (seq 0 %d))" % k[1]
+            if k[0] in ("linear", "binary", "t3ns"):
+                expr = "enc_obtree (%s_g (seq 0 %d))" % (k[0], k[1])
             else:
                 mode = {"no": "NoContract", "all": "ContractAll"}.get(k[3]) or "(ContractLabel (bools_of %d %d))" % (k[4], k[1])
-                expr = "enc_obtree (general_mctdh (seq 0 %d) %d %s)" % (k[1], k[2], mode)
+                expr = "enc_obtree (general_mctdh_g (seq 0 %d) %d%%Z %s)" % (k[1], k[2], mode)
             items.append((t, expr))
         pitems = [(p, "flat_map (fun g => Z.of_nat (length g) :: map Z.of_nat g) (approximate_partition (seq 0 %d) %d%%Z)" % (p["len"], p["n"])) for p in bres["parts"]]
         allitems = items + pitems
@@ -451,10 +484,12 @@ def run(ctx):
                     bd["label"] = [rng.random() < 0.5 for _ in range(nb)]
             case = {"tree": None, "builder": bd, "basis": reals}
             bump("tree:" + name)
+        conserving = any(b[0] == "el" for b in reals) and rng.random() < 0.7
         for _ in range(50):
-            case["terms"] = gen_terms(rng, reals, 10 if quick else 24)
+            case["terms"] = (gen_terms_conserving if conserving else gen_terms)(rng, reals, 10 if quick else 24)
             if term_coeffs(case["terms"]):                    # the zero operator goes to the malformed stream
                 break
+        case["qr_sym"] = rng.random() < 0.35
         case["algo"] = rng.choice(["Hopcroft-Karp", "Hungarian"])
         case["dense"] = True
         case["qr_dense"] = rng.random() < 0.3
@@ -605,23 +640,46 @@ def run(ctx):
                     "[" + "; ".join(nat_list(oo[0][0]) for oo in st["out_ops"]) + "]" for st in r["steps"])))
                 txt.append("Eval vm_compute in run_qn %d PQ%d TR%d FS%d." % (r["qn_size"], ci, ci, ci))
                 txt.append("Eval vm_compute in run_coeff TR%d BS%d T%d ST%d." % (ci, ci, ci, ci))
+                # bond labels as a theorem instance: only when all rows carry the same total charge
+                r["_q"] = None
+                if r["qn_size"] == 1 and r["table"]:
+                    qs_ = set(sum(r["prim_qn"][p_][0] for p_ in row) for row in r["table"])
+                    if len(qs_) == 1:
+                        r["_q"] = qs_.pop()
+                if r["_q"] is not None:
+                    txt.append("Eval vm_compute in run_labels [%s] TR%d T%d WS%d." % ("; ".join(common.coq_Z(v[0]) for v in r["prim_qn"]), ci, ci, ci))
+                else:
+                    txt.append("Eval vm_compute in (nil : list Z).")
+                # layout of the qr run with the logged factors as witnesses (coefficients set to 1 here)
+                qr = r.get("qr")
+                if qr and not qr.get("error"):
+                    sw = []
+                    for st in qr["steps"]:
+                        qrows = sorted(set(tuple(a) for a in st["trow"]))
+                        qcols = sorted(set(tuple(a) for a in st["tcol"]))
+                        qlit = "[" + "; ".join("[" + "; ".join("(%s, 1%%Z)" % nat_list(o[0]) for o in oo) + "]" for oo in st["out_ops"]) + "]"
+                        rlit = "[" + "; ".join("(%d, %s, 1%%Z)" % (row[0], nat_list(row[1:])) for row in st["new_table"]) + "]"
+                        sw.append("WQ ZRing [%s] [%s] %s %s" % ("; ".join(nat_list(k) for k in qrows), "; ".join(nat_list(k) for k in qcols), qlit, rlit))
+                    txt.append("Eval vm_compute in run_stables TR%d T%d [%s]." % (ci, ci, "; ".join(sw)))
+                else:
+                    txt.append("Eval vm_compute in (nil : list Z).")
             files.append(("ttno_%d" % gi, "\n".join(txt) + "\n"))
         outs = coq_eval_pool(ctx, files, timeout=900)
         for gi, grp in enumerate(groups):
             rc_, out_ = outs["ttno_%d" % gi]
             vals = common.parse_Z_lists(out_) if rc_ == 0 else None
-            if vals is None or len(vals) != 5 * len(grp):
+            if vals is None or len(vals) != 7 * len(grp):
                 corr_bad.append({"what": "model evaluation failed", "shard": gi, "out": out_[-1200:]})
                 continue
             for ci, (case, r) in enumerate(grp):
-                bad = compare_case(case, r, vals[5 * ci: 5 * ci + 5])
+                bad = compare_case(case, r, vals[7 * ci: 7 * ci + 7])
                 ev += bad["n"]
                 if bad["bad"]:
                     corr_bad.append({"what": bad["bad"], "case": case, "detail": bad.get("detail")})
                 if bad["nontrivial"]:
                     nontriv += 1
                     bump("construction:nontrivial")
-                for kflag in ("mixed_cover", "inner_columns", "multi_basis_node", "dummy_node"):
+                for kflag in ("mixed_cover", "inner_columns", "multi_basis_node", "dummy_node", "labels_theorem_instance", "labels_charged_operators", "qr_witness_checked", "qr_mixing"):
                     if bad.get(kflag):
                         bump("construction:" + kflag)
                 bump("construction:compared")
@@ -895,7 +953,108 @@ def compare_case(case, r, vals):
                         "detail": {"string": s, "impl": c, "den_scaled": den_v, "scale": scale}}
     except (IndexError, KeyError, TypeError) as e:
         return {"n": n + 1, "bad": "comparison crashed: %r" % (e,), "nontrivial": False}
+    flags = {}
+    try:
+        # ---- the root: columns are the U side, the cover is the column (hypothesis of root_factor_one)
+        rc = r.get("root_cover") or {}
+        n += 1
+        if rc.get("rows_lt_cols") is not False or rc.get("n_cols") != 1 or rc.get("cover") != [[True], [False] * rc.get("n_rows", 0)]:
+            return {"n": n, "bad": "root step: the cover is not (all columns = U side selected, no row)", "nontrivial": False, "detail": rc}
+        # ---- bond labels: instance of ttno_qn_labels
+        if r.get("_q") is not None:
+            lv = vals[5]
+            n += 1
+            if len(lv) < 2 or lv[0] != 1:
+                return {"n": n, "bad": "labels: summands of an out-operator carry different charges although all terms share one total charge", "nontrivial": False, "detail": {"q": r["_q"]}}
+            if lv[1] != 1:
+                return {"n": n, "bad": "labels: a selected column is redundant (empty complementary operator)", "nontrivial": False}
+            rd = Reader(lv[2:])
+            labs = []
+            while not rd.done():
+                labs.append([rd.get() for _ in range(rd.get())])
+            want = [[v[0] for v in node] for node in r["mpoqn"]]
+            if labs != want:
+                return {"n": n, "bad": "labels: model labels differ from mpoqn", "nontrivial": False, "detail": {"model": labs, "impl": want}}
+            if labs[-1] != [r["_q"]]:
+                return {"n": n, "bad": "labels: the root does not carry the common total charge", "nontrivial": False, "detail": {"root": labs[-1], "q": r["_q"]}}
+            flags["labels_theorem_instance"] = True
+            flags["labels_charged_operators"] = any(v[0] != 0 for v in r["prim_qn"])
+        # ---- qr: the logged factors are an (approximately) exact factorisation witness, same layout, same operator
+        qr = r.get("qr")
+        if qr:
+            if qr.get("error"):
+                return {"n": n + 1, "bad": "construct_symbolic_ttno(algo='qr') raised", "nontrivial": False, "detail": qr["error"]}
+            bad_qr, nq, mixing = check_qr(r, qr, vals[6])
+            n += nq
+            if bad_qr:
+                return {"n": n, "bad": bad_qr[0], "nontrivial": False, "detail": bad_qr[1]}
+            flags["qr_witness_checked"] = True
+            flags["qr_mixing"] = mixing
+    except (IndexError, KeyError, TypeError, ValueError) as e:
+        return {"n": n + 1, "bad": "comparison crashed (labels/qr): %r" % (e,), "nontrivial": False}
     mixed = any(st["witness"]["rsel"] and st["witness"]["csel"] for st in steps)
     inner = any(st["witness"]["csel"] for st in steps[:-1])
-    return {"n": n, "bad": None, "nontrivial": nontrivial, "mixed_cover": mixed, "inner_columns": inner,
-            "multi_basis_node": any(k >= 2 for m, k in r["pmk"]), "dummy_node": any(r["dummy_cols"])}
+    out = {"n": n, "bad": None, "nontrivial": nontrivial, "mixed_cover": mixed, "inner_columns": inner,
+           "multi_basis_node": any(k >= 2 for m, k in r["pmk"]), "dummy_node": any(r["dummy_cols"])}
+    out.update(flags)
+    return out
+
+
+QR_TOL = 1e-8      # _decompose_qr drops q / r entries below 1e-10 (relative) by design
+
+
+def check_qr(r, qr, layout):
+    """logged qr factors: keys, factorisation identity Gamma = Q.R per node, table layout (Coq sloop with the witnesses), operator"""
+    n = 0
+    mixing = False
+    steps = qr["steps"]
+    if len(steps) != len(r["pmk"]):
+        return ("qr: number of nodes differs", None), n, mixing
+    rd = Reader(layout)
+    for i, st in enumerate(steps):
+        rows = [tuple(a) for a in st["trow"]]
+        cols = [tuple(a) for a in st["tcol"]]
+        fac = [dyf(p) for p in st["factor"]]
+        gamma = {}
+        for a, b, f in zip(rows, cols, fac):
+            gamma[(a, b)] = gamma.get((a, b), 0) + f
+        qcoef = {}
+        for l, oo in enumerate(st["out_ops"]):
+            if len(oo) > 1:
+                mixing = True
+            for sym, f, _qn in oo:
+                if tuple(sym) not in set(rows):
+                    return ("qr: an out-operator mentions a row key that is not in the table", {"node": i, "symbol": sym}), n, mixing
+                qcoef[(l, tuple(sym))] = qcoef.get((l, tuple(sym)), 0) + dyf(f)
+        prod = {}
+        for row, f in zip(st["new_table"], st["new_factor"]):
+            l, c = row[0], tuple(row[1:])
+            if c not in set(cols) or not (0 <= l < len(st["out_ops"])):
+                return ("qr: a new table row mentions an unknown column key / bond index", {"node": i, "row": row}), n, mixing
+            for (l2, rk), q in qcoef.items():
+                if l2 == l:
+                    prod[(rk, c)] = prod.get((rk, c), 0) + q * dyf(f)
+        scale = max([abs(v) for v in gamma.values()] + [Fraction(1, 10 ** 30)])
+        n += 1
+        for k in set(gamma) | set(prod):
+            if abs(gamma.get(k, 0) - prod.get(k, 0)) > QR_TOL * scale:
+                return ("qr: the logged factors are not a factorisation of gamma (hypothesis qr_valid of ttno_sound_qr)",
+                        {"node": i, "entry": [list(k[0]), list(k[1])], "gamma": float(gamma.get(k, 0)), "q.r": float(prod.get(k, 0))}), n, mixing
+        # layout: the table this node received, as the Coq loop computes it from the witnesses
+        tab = rd.table()
+        n += 1
+        if sorted(k for k, _ in tab) != sorted(a + b for a, b in zip(rows, cols)):
+            return ("qr: table handed to the one-site step differs from the model's (column bookkeeping)", {"node": i}), n, mixing
+    fin = rd.table()
+    if [k for k, _ in fin] != [(0,)] or not rd.done():
+        return ("qr: final table is not the single row [0]", {"model": fin}), n, mixing
+    if [tuple(x) for x in steps[-1]["new_table"]] != [(0,)] or dyf(steps[-1]["new_factor"][0]) != 1:
+        return ("qr: the implementation's final table is not [0] with factor 1", {"impl": steps[-1]["new_table"], "factor": steps[-1]["new_factor"]}), n, mixing
+    # operator: coefficients of the composed qr tensors vs the graph run's (exact) coefficients
+    exact = [Fraction(c[0], c[1]) for c in r["mo_coeff"]]
+    cscale = max([abs(v) for v in exact] + [1])
+    for s_, c, e in zip(r["strings"], qr["mo_coeff"], exact):
+        n += 1
+        if c is None or abs(dyf(c) - e) > QR_TOL * cscale:
+            return ("qr: coefficient of the composed tensors differs from the term list", {"string": s_, "qr": None if c is None else float(dyf(c)), "exact": float(e)}), n, mixing
+    return None, n, mixing
